@@ -541,7 +541,7 @@ static void gen_c08(Builder &b, bool thorough) {
 	uint64_t N = gc.N;
 	b.phase = 0; b.task = 0;
 	uint32_t cf = rng.pick(gc.cache_flagsets);
-	if (gc.mode == "fullshipped") { cf |= F_JIT; b.plan.note = "fullshipped"; }
+	if (gc.mode == "fullshipped") { cf |= F_JIT; b.plan.fullmem_model = true; }
 	b.alloc_cache(0, cf, b.rnd_heap()); b.init_cache(0, b.rnd_key());
 	b.alloc_dataset(0, rng.chance(1, 5) ? F_LARGE : 0, b.rnd_heap());
 	{ Op &g = b.emit(DS_GUARD); g.d = 0; }
